@@ -35,6 +35,8 @@ def plan(tier, seed):
         for op in sorted(OPS):
             rpt = OPS[op].get('repeat_q' if q else 'repeat_t', 250 if q else 1000)
             units.append({'kind': 'op', 'op': op, 'repeat': rpt if rep == 0 else min(rpt, 40), 'rep': rep, 'weight': 3})
+        for proto in ('tlcp', 'tls12', 'tls13'):
+            units.append({'kind': 'app-send', 'proto': proto, 'sizes': [1, 100, 4000] if q else [1, 15, 16, 100, 4000, 16384], 'rep': rep, 'weight': 3})
         units.append({'kind': 'rand-bytes', 'sizes': [1, 8, 16, 32, 48, 64, 65, 255, 256, 257, 300, 512, 513, 1024, 2048, 4096, 4097, 65536], 'rep': rep, 'weight': 2})
         units.append({'kind': 'ctx-reuse', 'count': 200 if q else 1500, 'fail_draws': [0, 1, 15, 31] if q else list(range(32)), 'rep': rep, 'weight': 4})
         for proto in ('tlcp', 'tls12', 'tls13'):
@@ -680,6 +682,58 @@ def u_rand_bytes(ctx, u):
     ctx.sample({'op': 'rand_bytes', 'sizes': list(u['sizes'])})
 
 
+def u_app_send(ctx, u):
+    """Application data after a completed handshake: the entropy source fails from the first draw a send makes (the CBC
+    suites draw an IV per record; TLS 1.3 may draw padding).  If a draw failed, the send must report failure and must not
+    have put a record on the wire."""
+    proto = T.PROTOS[u['proto']]
+    creds = T.Creds(ctx, 'c18a-%s' % u['proto'], 1, now=FIXED_TIME + 7200)
+    srv_ctx, cli_ctx = T.pair_ctx(ctx, creds, proto, False)
+    sh = ctx.shim
+    sh.vf_time_set(FIXED_TIME + 7200)
+    for sender_is_client in (True, False):
+        for size in u['sizes']:
+            ctx.begin(['app-send', u['proto'], sender_is_client, size])
+            res = T.run_handshake(ctx, srv_ctx, cli_ctx, seed=900 + size + 100000 * ctx.seed, keep_open=True)
+            s, c = res['server'], res['client']
+            if not ctx.check(s.ret == 1 and c.ret == 1, 'clean:honest-handshake-failed', proto=u['proto'], phase='app-send'):
+                T.close_pair(res)
+                continue
+            snd, rcv = (c, s) if sender_is_client else (s, c)
+            snd.thread_setup()
+            # clean send first: how many draws does one send make?
+            d0 = sh.vf_entropy_draws()
+            r0, n0 = snd.send_once(b'a' * size)
+            per_send = sh.vf_entropy_draws() - d0
+            rcv.thread_setup()
+            got0 = rcv.recv(20000)
+            snd.thread_setup()        # re-seeds this thread's stream; the fail point below is relative to it
+            ctx.check(r0 == 1 and got0[0] == 1 and got0[1] == b'a' * n0, 'clean:application-data-not-delivered', proto=u['proto'], ret=r0)
+            ctx.stat('app_send_draws_per_record', per_send)
+            sh.vf_entropy_fail_at(sh.vf_entropy_draws(), 1)
+            r1, n1 = snd.send_once(b'b' * size)
+            failed = sh.vf_entropy_failed()
+            tb = ctypes.create_string_buffer(32)
+            nt = sh.vf_io_after_fail_types(tb)
+            types = list(tb.raw[:nt])
+            sh.vf_entropy_fail_at(-1, 0)
+            if failed:
+                ctx.check(r1 != 1, 'fail-open:send-succeeded-despite-failed-draw:%s' % u['proto'], sender='client' if sender_is_client else 'server',
+                          size=size, ret=r1)
+                ctx.check(not [t for t in types if t != T.REC_ALERT], 'fail-open:records-sent-after-failed-draw:%s:application-data' % u['proto'],
+                          record_types=types, size=size)
+                ctx.stat('faults_injected')
+                ctx.nontrivial('app-send', u['proto'], sender_is_client, size, 'failed-draw')
+            else:
+                ctx.stat('app_send_draws_nothing')
+                ctx.ok()
+                ctx.nontrivial('app-send', u['proto'], sender_is_client, size, 'no-draw')
+            T.close_pair(res)
+    ctx.sample({'kind': 'app-send', 'proto': u['proto']})
+    srv_ctx.free()
+    cli_ctx.free()
+
+
 def u_handshake(ctx, u):
     proto = T.PROTOS[u['proto']]
     creds = T.Creds(ctx, 'c18-%s-%s' % (u['proto'], u['role']), 1, now=FIXED_TIME + 7200)
@@ -733,4 +787,4 @@ def u_handshake(ctx, u):
 
 
 def run_unit(ctx, u):
-    {'op': u_op, 'handshake': u_handshake, 'ctx-reuse': u_ctx_reuse, 'rand-bytes': u_rand_bytes}[u['kind']](ctx, u)
+    {'op': u_op, 'handshake': u_handshake, 'ctx-reuse': u_ctx_reuse, 'rand-bytes': u_rand_bytes, 'app-send': u_app_send}[u['kind']](ctx, u)
